@@ -251,6 +251,47 @@ def fixup(ctx, fs):
                     cb = f.bodies.get(a[1])
                     if a[1] == fix.id or (cb is not None and any((ct.get('resolved') or '') == fix.id for cbb, ct in cb.calls())):
                         fixb.add(bb)
+    # the rewrite is applied *in place*: what each direct application receives is a reference into the node being
+    # visited (the pattern binding), not the address of a local copy of the key
+    from .c20gen import ref_base
+    inplace = []
+    for x in [fs] + f.closures_of(fs):
+        if x is fix:
+            continue
+        for bb, t in x.calls():
+            if (t.get('resolved') or '') == fix.id and len(t['args']) > 1:
+                good = False
+                pa = op_place(t['args'][1])
+                for _ in range(8):
+                    if pa is None:
+                        break
+                    ds = [d for d in x.defs().get(pa['l'], []) if d[2] == 'assign' and not d[4].get('p')]
+                    if not ds:
+                        # parameter / pattern binding: in place iff it is a mutable reference
+                        good = x.local_ty(pa['l']).startswith('&mut ')
+                        break
+                    rvs = [d[3] for d in ds]
+                    if all(r_['k'] in ('ref', 'rawptr') for r_ in rvs):
+                        pls = [r_['place'] for r_ in rvs]
+                        if all(p_.get('p') == ['*'] for p_ in pls) and len(pls) == 1:
+                            pa = {'l': pls[0]['l']}          # `&mut *r`: a pure re-borrow, look at r
+                            continue
+                        # `&mut (*r).field..`: points into what r borrows: in place.  `&mut local`: address of a copy.
+                        good = all('*' in p_.get('p', []) and len(p_['p']) > 1 for p_ in pls)
+                        break
+                    if len(rvs) != 1:
+                        break
+                    rv_ = rvs[0]
+                    if rv_['k'] == 'use':
+                        pa = op_place(rv_['op'])
+                        continue
+                    if rv_['k'] == 'agg' and rv_.get('agg') == 'tuple' and len(rv_['ops']) == 1:
+                        pa = op_place(rv_['ops'][0])     # closure call: arguments travel as a tuple
+                        continue
+                    break
+                inplace.append(good)
+    ctx.ob('FIXUP', 'applied-in-place', bool(inplace) and all(inplace), short_loc(fs.span),
+           'direct applications of the key rewrite: %d, each on a `&mut` borrowed from the visited node: %s' % (len(inplace), inplace))
     sis = fs.switches_on_adt(REG)
     for kind in ('Array', 'Map', 'Union', 'Record'):
         ok = False
@@ -458,6 +499,8 @@ def state_rule(ctx, rn):
             if 'assign' in s_ and s_['rv']['k'] == 'agg' and s_['rv'].get('adt', '').endswith('schema::safe::SchemaKey'):
                 io = origin(rn, s_['rv']['ops'][0])
                 if 'unresolved_names' in io.fields and 'len' in io.flags:
-                    marked = 'arith:BitOr' in io.flags and any(a[0] == 'const' for a in io.atoms)
-    ctx.ob('STATE', 'late-key-marked', marked, short_loc(rn.span), 'the key of an unresolved reference is unresolved_names.len() | LATE_NAME_LOOKUP_REMAP_BIT: %s' % marked)
+                    lens = [b2 for b2, t2 in rn.calls() if call_matches(t2, ['Vec::<T, A>::len']) and any(c is t2 for c in io.calls)]
+                    before = bool(lens) and bool(ps) and all(rn.dominates(l_, ps[0][0]) for l_ in lens)
+                    marked = 'arith:BitOr' in io.flags and any(a[0] == 'const' for a in io.atoms) and before
+    ctx.ob('STATE', 'late-key-marked', marked, short_loc(rn.span), 'the key of an unresolved reference is unresolved_names.len() (read before the push) | LATE_NAME_LOOKUP_REMAP_BIT: %s' % marked)
     ctx.ob('STATE', 'unresolved-pushed-once', ok, short_loc(rn.span), 'an unknown reference is pushed to unresolved_names exactly at one site, in the None arm of the name lookup: %s' % ok)
